@@ -3,7 +3,7 @@
    positive size and interruptions in any order, of any length (shorter than the stream: the rest arrives at once).
    `in_range b`: 16-bit variables, 32-bit links (what the Rust types can hold). *)
 From Coq Require Import List NArith Bool. Import ListNotations.
-From BddVerif Require Import Model.Bdd Model.Apply Model.Serial Proofs.Sem
+From BddVerif Require Import Model.Bdd Model.Apply Model.Serial Model.Alias Proofs.Alias Proofs.Sem
   Proofs.SerialIO Proofs.SerialBytes Proofs.SerialText Proofs.SerialNodes.
 Open Scope N_scope.
 
@@ -109,3 +109,18 @@ Example C12_ex_roundtrip :
   read_bytes_sched (write_bytes b) [EChunk 13; EFail KOther] = Ok RErr.
 Proof. vm_compute. repeat split. Qed.
 Print Assumptions C12_ex_roundtrip.
+
+(* ---- the panicking forms Bdd::from_string / Bdd::from_bytes (read from a slice + expect; Model/Alias.v): they answer
+   exactly when the reader answers Ok, with the same diagram, so the library's own output reads back *)
+Theorem C12_from_string_roundtrip : forall b, in_range b -> from_string_m (write_text b) = Ok b.
+Proof. exact from_string_roundtrip. Qed.
+Print Assumptions C12_from_string_roundtrip.
+Theorem C12_from_bytes_roundtrip : forall b, in_range b -> from_bytes_m (write_bytes b) = Ok b.
+Proof. exact from_bytes_roundtrip. Qed.
+Print Assumptions C12_from_bytes_roundtrip.
+Theorem C12_from_string_spec : forall data b, from_string_m data = Ok b <-> read_text_sched data [] = Ok (ROk b).
+Proof. exact from_string_spec. Qed.
+Print Assumptions C12_from_string_spec.
+Theorem C12_from_bytes_spec : forall data b, from_bytes_m data = Ok b <-> read_bytes_sched data [] = Ok (ROk b).
+Proof. exact from_bytes_spec. Qed.
+Print Assumptions C12_from_bytes_spec.
